@@ -18,6 +18,12 @@ fn explore_req(part: &mut Part, cfg: &SrvCfg, max_states: usize, max_secs: f64, 
     }
 }
 
+/// Digest-free companion for a (small) server configuration.
+fn companion(part: &mut Part, cfg: &SrvCfg, depth: usize) {
+    let t = crate::explore::stateless_dfs(cfg, depth, workers());
+    crate::explore::record_stateless(part, &cfg.label, depth, &t);
+}
+
 fn split_at(v: Vec<u8>, at: usize) -> Vec<Vec<u8>> {
     vec![v[..at].to_vec(), v[at..].to_vec()]
 }
@@ -81,6 +87,9 @@ pub fn c08(thorough: bool) -> Vec<Part> {
     }
     for cfg in cfgs {
         explore(&mut part, &cfg, if thorough { 3_000_000 } else { 400_000 }, if thorough { 2400.0 } else { 100.0 });
+        if cfg.clients.len() == 1 && part.violations.is_empty() {
+            companion(&mut part, &cfg, if thorough { 18 } else { 13 });
+        }
     }
     vec![part]
 }
@@ -257,8 +266,11 @@ pub fn c09(thorough: bool) -> Vec<Part> {
         t.release_check = true;
         cfgs.push(t);
     }
-    for cfg in cfgs {
-        explore(&mut part, &cfg, if thorough { 4_000_000 } else { 500_000 }, if thorough { 2400.0 } else { 120.0 });
+    for (i, cfg) in cfgs.iter().enumerate() {
+        explore(&mut part, cfg, if thorough { 4_000_000 } else { 500_000 }, if thorough { 2400.0 } else { 120.0 });
+        if i == 0 && part.violations.is_empty() {
+            companion(&mut part, cfg, if thorough { 12 } else { 9 });
+        }
     }
     vec![part]
 }
